@@ -58,7 +58,12 @@ func Parse(raw *Raw) ([]*Converter, error) {
 	}
 
 	sort.Slice(converters, func(i, j int) bool {
-		return converters[i].Name < converters[j].Name
+		if converters[i].Name != converters[j].Name {
+			return converters[i].Name < converters[j].Name
+		}
+		// converters of different packages may share a name, their order
+		// must not depend on the order of the package patterns
+		return converters[i].Package < converters[j].Package
 	})
 
 	return converters, nil
